@@ -1525,6 +1525,17 @@ void Validator::ValidatorImpl::validateVariable(const VariablePtr &variable, con
                 issue->mPimpl->mItem->mPimpl->setVariable(variable);
                 issue->mPimpl->setReferenceRule(Issue::ReferenceRule::VARIABLE_INITIAL_VALUE_VALUE);
                 addIssue(issue);
+            } else {
+                // Like every other numeric attribute, the value must be in the range of a double.
+                double doubleValue;
+
+                if (!convertToDouble(initialValue, doubleValue)) {
+                    auto issue = Issue::IssueImpl::create();
+                    issue->mPimpl->setDescription("Variable '" + variableName + "' in component '" + component->name() + "' has an initial value '" + initialValue + "' that is a representation of a CellML real valued number, but out of range of the 'double' type.");
+                    issue->mPimpl->mItem->mPimpl->setVariable(variable);
+                    issue->mPimpl->setReferenceRule(Issue::ReferenceRule::VARIABLE_INITIAL_VALUE_VALUE);
+                    addIssue(issue);
+                }
             }
         }
     }
